@@ -855,6 +855,7 @@ class Runner:
         self.wd = tools.workdir()
         self.bin_cache = {}
         self.peeked = 0
+        self.peek_bad = []
 
     def bin_image(self, skool_path, key, mode, data):
         k = (key, mode, data)
@@ -865,8 +866,10 @@ class Runner:
         return self.bin_cache[k]
 
     def check(self, case, mode, opts, html=False, stats=None):
-        """Returns a list of (clause, detail)."""
+        """Returns a list of (clause, detail) and the domain classification of the case."""
         out = []
+        self.peek_bad = []
+        self.peeked = 0
         path = tools.write_file('c.skool', case.skool, self.wd)
         key = case.skool
         cls = case.classify(mode, bool(opts.get('c')) and not html)
@@ -969,6 +972,7 @@ class Runner:
             want = blob[a - start] if start <= a < end else 0
             if peeks[a] != str(want):
                 bad.append((a, peeks[a], want))
+        self.peek_bad = [x[0] for x in bad]
         if bad:
             out.append(('peek', '{}: #PEEK differs from the skool2bin image at {} address(es): {}'.format(
                 where, len(bad), ', '.join('{}: #PEEK {} bin {}'.format(*x) for x in bad[:6]))))
@@ -1116,9 +1120,15 @@ def groups(tier, seed):
                 yield ('H', dict(base=base, entries=ent, dname=form, p=p, gap_entry=1 if form == 'org_gap' else None), [HTML], opt0, True)
 
 
-def _tags(part, case, mode, opts, clause, cls, html, detail=''):
+def _tags(part, case, mode, opts, clause, cls, html, detail='', peek_bad=()):
     m = re.search(r'failed: (\w+: .{0,60})', detail)
-    return {'error': m.group(1).strip() if clause == 'tool' and m else '','part': part, 'clause': clause, 'form': case.dname or 'none', 'kind': case.kind or '', 'asm': mode[0], 'fix': mode[1],
+    where = ''
+    if clause == 'peek' and peek_bad and case.d is not None:
+        # are all differing addresses inside the anchor instruction and its successor (what one directive can rewrite)?
+        ins = case.lay.ins
+        hi = ins[case.p + 2].saddr if case.p + 2 < len(ins) else case.lay.end
+        where = 'anchor_span' if all(ins[case.p].saddr <= a < hi for a in peek_bad) else 'outside'
+    return {'where': where,'error': m.group(1).strip() if clause == 'tool' and m else '','part': part, 'clause': clause, 'form': case.dname or 'none', 'kind': case.kind or '', 'asm': mode[0], 'fix': mode[1],
             'base': opts.get('base', ''), 'case': opts.get('case', ''), 'c': opts.get('c', 0), 'labels_all': int(case.labels_all),
             'relocated': int(cls['relocated']), 'active': int(cls['active']), 'anchor': case.p, 'html': int(html)}
 
@@ -1156,7 +1166,7 @@ def _shard(shard, nshards, tier, seed):
                 for clause, detail in res:
                     cid = '{}/{}/m{}{}/{}{}'.format(part, case.ident(), mode[0], mode[1], ''.join(opt_args(opts)) or 'default', '/html' if html else '')
                     stats.violation(cid + ':' + clause, dict(spec=case.spec(), mode=list(mode), opts=opts, html=html, skool=case.skool), clause + ': ' + detail,
-                                    tags=_tags(part, case, mode, opts, clause, cls, html, detail), order=gi * 1000 + MODES.index(mode) * 20 + oi if mode in MODES else gi * 1000 + oi)
+                                    tags=_tags(part, case, mode, opts, clause, cls, html, detail, run.peek_bad), order=gi * 1000 + MODES.index(mode) * 20 + oi if mode in MODES else gi * 1000 + oi)
         if gi % 1499 == 0:
             stats.sample({'part': part, 'case': case.ident(), 'modes': [list(m) for m in modes], 'options': len(opts_list), 'skool': case.skool.split('\n')[:14]})
     return stats
